@@ -860,6 +860,11 @@ class Interp:
 
     def binop(self, op, a, b, inplace=False):
         sa, sb = isinstance(a, Sym), isinstance(b, Sym)
+        if op is ast.Mod and isinstance(a, str) and not sb:
+            items = b if isinstance(b, tuple) else (b,)
+            if any(isinstance(x, BaseException) and contains_sym(x.args) for x in items):
+                from .strings import str_format_percent
+                return str_format_percent(a, b)
         if sa or sb or contains_sym(a, 1) or contains_sym(b, 1):
             if op is ast.Mod and isinstance(a, str):
                 from .strings import str_format_percent
